@@ -165,6 +165,7 @@ void ringT(Case& c, bool mid, bool constReverse, unsigned nops) {
     // const reverse traversal (sanitizer builds only: see spec assumptions)
     if (constReverse && !c.bad) {
       c.op("const-reverse-traversal");
+      c.checking("const-backward-traversal");
       const R& cr = r;
       auto b = cr.rbegin();
       auto e = cr.rend();
@@ -359,7 +360,7 @@ void run_FixedSizeRing(Case& c) {
   unsigned cs   = c.rng.pick({1u, 2u, 3u, 3u, 4u, 4u, 8u, 64u});
   bool tracked  = c.rng.below(3) != 0;
   bool mid      = c.rng.below(2) == 0;
-  bool cr       = VERIF_ASAN && c.rng.below(48) == 0;
+  bool cr       = VERIF_ASAN && c.rng.below(192) == 0;
   unsigned nops = c.pickOps();
   std::string cfg =
       "cs" + std::to_string(cs) + (tracked ? "|tracked" : "|pod") + (mid ? "|mid" : "|ends") + (cr ? "|constrev" : "");
